@@ -34,7 +34,8 @@ extern void *__libc_memalign(size_t, size_t);
 #define TRK_SZ (1u << 17)
 #define WIN_SZ 65536
 static uint32_t win[WIN_SZ]; static uint32_t nwin;
-static struct { void *p; uint64_t seq; void *site[XDRV_NSITE]; } trk[TRK_SZ];
+static struct { void *p; uint64_t seq; uint64_t rep; void *site[XDRV_NSITE]; } trk[TRK_SZ];
+static uint64_t rep_id = 0;
 static uint64_t trk_seq = 1;
 long trk_live = 0;
 int trk_on = 0;       /* tracking active (inside a call window) */
@@ -84,7 +85,10 @@ void *realloc(void *o, size_t n) {
 void free(void *p) { if (p && trk_on) trk_del(p); __libc_free(p); }
 /* dump sites of blocks allocated at or after seq0 that are still live */
 static void trk_report(uint64_t seq0, FILE *o) {
+    rep_id++;
     for (uint32_t w = 0; w < nwin; w++) { size_t i = win[w];
+        if (trk[i].rep == rep_id) continue;      /* a slot can be listed more than once when it was reused inside the window */
+        trk[i].rep = rep_id;
         if (trk[i].p && trk[i].p != (void *)1 && trk[i].seq >= seq0) {
             fprintf(o, "LEAK %zu", (size_t)0);
             for (int q = 0; q < XDRV_NSITE; q++) {
